@@ -54,6 +54,11 @@ public:
   ALLOW_STD_FEATURE(RAYS, true)
   ArrayRef<double> Ray() override;
   ArrayRef<double> DRay() override;
+  /// C09: alternative solutions (sol:stub / sol:count; script line `altsol N`) and model export
+  /// (tech:writemodel / tech:writemodelonly): only active when these options / script lines are used
+  ALLOW_STD_FEATURE(MULTISOL, true)
+  ALLOW_STD_FEATURE(WRITE_PROBLEM, true)
+  void DoWriteProblem(const std::string &name) override;
   ALLOW_STD_FEATURE(IIS, true)
   void ComputeIIS() override {}
   IIS GetIIS() override;
